@@ -1,1 +1,32 @@
+//! unitsim — unit-level deterministic simulations (maps, pools, openness, revertible buffer).
 
+pub mod mapsim;
+pub mod poolsim;
+pub mod ser;
+pub mod stubs;
+
+use simcore::{CheckSpec, Part};
+
+pub const PROPERTIES: &[&str] = &["C15", "C34"];
+
+pub fn registry(property: &str) -> Option<CheckSpec> {
+    match property {
+        "C34" => Some(CheckSpec {
+            property: "C34",
+            level: "exploration",
+            parts: vec![Part::new(mapsim::MapSim, 120_000, 2_400_000)],
+            assumptions: vec![
+                "values are arbitrary bit patterns of the (Pod) value types; keys are drawn from a salted universe of 2x capacity".into(),
+            ],
+        }),
+        "C15" => Some(CheckSpec {
+            property: "C15",
+            level: "exploration",
+            parts: vec![Part::new(poolsim::PoolSim, 200000, 4000000)],
+            assumptions: vec![
+                "the stored total of a pool is observed through its public Borsh encoding (store) / public fields (SDK)".into(),
+            ],
+        }),
+        _ => None,
+    }
+}
